@@ -404,7 +404,29 @@ def gen_c05_all(env, tier):
     gen_live(env, tier, "C05")
 
 
-GENS = {"C02": gen_c02_all, "C03": gen_c03_all, "C04": gen_c04, "C05": gen_c05_all, "C13": gen_c13, "C14": gen_c14, "C18": gen_c18}
+def gen_c14_long(env, tier):
+    """walks over dimensions with 70-260 rows: a dense category in one dimension against single rows and short row
+    lists of another dimension placed at, just before and just after every power-of-two block boundary"""
+    rnd = env.rnd
+    for n in ((70, 131, 200) if tier == "quick" else (65, 70, 129, 131, 200, 260)):
+        picks = sorted({k * bs + d for bs in (8, 16, 32, 64, 128) for k in range(1, n // bs + 1) for d in (-1, 0, 1) if 0 <= k * bs + d < n})
+        groups = [[q] for q in picks[:: (2 if tier == "quick" else 1)]] + [picks[i::5] for i in range(5)]
+        for rows in groups:
+            a = np.ones(n, dtype=np.int64)                       # category 1 on every row (common 0 absent from the data)
+            if rnd.random() < 0.5:
+                a[rnd.sample(range(n), 3)] = 0
+            b = np.zeros(n, dtype=np.int64)
+            b[rows] = 1
+            for dims, commons in (([a, b], [0, 0]), ([b, a], [0, 0]), ([a, b, b], [0, 0, 0])):
+                record_walk(env, dims, commons)
+
+
+def gen_c14_all(env, tier):
+    gen_c14(env, tier)
+    gen_c14_long(env, tier)
+
+
+GENS = {"C02": gen_c02_all, "C03": gen_c03_all, "C04": gen_c04, "C05": gen_c05_all, "C13": gen_c13, "C14": gen_c14_all, "C18": gen_c18}
 
 
 def judge(chk, rec, own):
